@@ -277,6 +277,14 @@ func respFaultMalformed(p *Plan, b *BackendObs, st *rpcState) string {
 			return "" // un-enveloped protocols have no end marker to omit
 		}
 		return "no end of stream"
+	case rp.CutAt > 0 && rp.CutPlusEnd:
+		// the body stops early and the trailers say OK: malformed unless the cut falls on a frame boundary
+		for _, e := range st.respBounds {
+			if e == rp.CutAt {
+				return "" // fewer messages than scripted, but a well-formed stream
+			}
+		}
+		return fmt.Sprintf("response cut after %d bytes (inside a frame) under OK trailers", rp.CutAt)
 	case rp.CutAt > 0:
 		if !b.Stream && rp.DeclareCL == "" {
 			// without framing or a declared length a shorter body is just a shorter body, unless it no longer decodes
@@ -503,6 +511,13 @@ func c09Mutations(base *Plan, sample *Chooser, keep float64) []*Plan {
 			add("resp-cut", func(p *Plan) { p.RPCs[0].Backend.Resp.CutAt = off })
 		}
 		add("resp-omit-end", func(p *Plan) { p.RPCs[0].Backend.Resp.OmitEnd = true })
+		if b.Protocol == ProtoGRPC {
+			// gRPC tells the outcome out of band: a body that stops early under trailers that still say OK
+			for off := 1; off < n; off++ {
+				off := off
+				add("resp-cut-ok-trailers", func(p *Plan) { p.RPCs[0].Backend.Resp.CutAt, p.RPCs[0].Backend.Resp.CutPlusEnd = off, true })
+			}
+		}
 		if b.Stream {
 			for mi := range rc.Backend.Resp.Msgs {
 				mi := mi
@@ -643,6 +658,9 @@ func c09Boundary(base *Plan) []*Plan {
 		for _, off := range near(d.respPrefixes, d.respBounds, d.respLen) {
 			off := off
 			add("resp-cut", func(p *Plan) { p.RPCs[0].Backend.Resp.CutAt = off })
+			if d.Backend[0].Protocol == ProtoGRPC {
+				add("resp-cut-ok-trailers", func(p *Plan) { p.RPCs[0].Backend.Resp.CutAt, p.RPCs[0].Backend.Resp.CutPlusEnd = off, true })
+			}
 		}
 		add("resp-omit-end", func(p *Plan) { p.RPCs[0].Backend.Resp.OmitEnd = true })
 		if !d.Backend[0].Stream {
